@@ -40,7 +40,7 @@ fn givens_of(root: usize, puzzle: &str) -> Vec<usize> {
 
 pub fn check_case(ctx: &Ctx, st: &mut Stats, c: &Case, tag: &str) {
     st.evals += 1;
-    let dir = ctx.scratch.join(format!("c17-{}", tag));
+    let dir = ctx.fresh_dir(&format!("c17-{}", tag));
     let _ = std::fs::create_dir_all(&dir);
     let input = dir.join("puzzle.txt");
     let output = dir.join("out.txt");
@@ -382,7 +382,7 @@ fn job(ctx: &Ctx, jb: usize, r2: u64, r3: u64, r4: u64) -> Stats {
 }
 
 pub fn run(ctx: &Ctx) -> (Stats, Spec) {
-    let (r2, r3, r4) = ctx.tier.pick((40u64, 2u64, 1u64), (3_000u64, 40u64, 6u64));
+    let (r2, r3, r4) = ctx.tier.pick((200u64, 6u64, 2u64), (3_000u64, 40u64, 6u64));
     let parts = util::par_jobs(16, |j| job(ctx, j, r2, r3, r4));
     let mut st = crate::report::merge_all(parts);
     // r = 1: all inputs of length <= 2 over {1, ., space}
